@@ -174,6 +174,9 @@ type Case struct {
 	// jhttp.Bridge (the HTTP round trip happens in-process); batches then begin
 	// with a notification.
 	Bridge bool `json:"bridge,omitempty"`
+	// OneSlot: the server has Concurrency 1, so the call that follows the judged
+	// one needs the very slot the failing handler occupied.
+	OneSlot bool `json:"one_slot,omitempty"`
 }
 
 // inproc is an HTTP client that hands each request to a handler directly.
@@ -257,6 +260,15 @@ func run(t *testing.T, c Case) (v engine.Verdict) {
 			}
 			mux := handler.Map{"ok": func(ctx context.Context, req *jrpc2.Request) (any, error) { return "fine", nil }, "m": m,
 				"note": func(ctx context.Context, req *jrpc2.Request) (any, error) { return nil, nil }}
+			if c.OneSlot {
+				if lopts == nil {
+					lopts = &server.LocalOptions{}
+				}
+				if lopts.Server == nil {
+					lopts.Server = &jrpc2.ServerOptions{}
+				}
+				lopts.Server.Concurrency = 1
+			}
 			loc := server.NewLocal(mux, lopts)
 			cli := loc.Client
 			specs := []jrpc2.Spec{{Method: "ok"}, {Method: "m"}}
@@ -494,6 +506,7 @@ func genCase(t *rapid.T) Case {
 	c.UseCallResult = rapid.IntRange(0, 3).Draw(t, "callresult") == 0
 	c.Via = rapid.SampledFrom([]string{"", "", "", "batch", "batchraw", "batchany", "marshal", "getter"}).Draw(t, "via")
 	c.Bridge = c.Via != "getter" && !c.ViaCallback && rapid.IntRange(0, 3).Draw(t, "bridge") == 0
+	c.OneSlot = !c.Bridge && rapid.IntRange(0, 2).Draw(t, "oneslot") == 0
 	if c.Via == "getter" && (c.ViaCallback || c.CancelFirst) {
 		c.Via = "" // (a Getter has no push side, and its server is not reachable for CancelRequest)
 	}
